@@ -166,6 +166,10 @@ skip_object(const uint8_t * buf, const uint8_t * end)
 		/* Otherwise we should have a comma. */
 		if (*buf++ != ',')
 			return (end);
+
+		/* We should have another entry. */
+		if (buf == end)
+			return (end);
 	} while (1);
 
 	/* NOTREACHED */
